@@ -191,6 +191,32 @@ pub fn run_crash_case(
                 }
                 // C14 (c): the resumed backup does not rewrite blocks and reuses recorded entries
                 res.c14 = c14_resume_oracle(&snap, &snap2, new, newest, &log2, stats, head_done && !tail_exists, &at, &site);
+                // The source is unchanged since the newest complete version: the resumed backup
+                // writes no block at all and records that version's addresses.
+                if let Some(last) = scn.complete.iter().max() {
+                    let later_same = scn.band_src.iter().filter(|(b, _)| *b > last).all(|(_, t)| *t == scn.src);
+                    if later_same && scn.band_src[last] == scn.src {
+                        let writes: Vec<&str> = log2
+                            .iter()
+                            .filter(|r| r.verb == conserve::transport::record::Verb::Write && r.path.starts_with("d/"))
+                            .map(|r| r.path.as_str())
+                            .collect();
+                        if !writes.is_empty() {
+                            res.c14.push(Violation::new(
+                                format!("C14:resume-of-unchanged-tree-writes-blocks:{site}"),
+                                format!("{at}: the tree equals b{last:04} yet the resumed backup wrote {writes:?}"),
+                            ));
+                        }
+                        let old: Vec<_> = snap2.band_entries(*last).into_iter().map(|e| (e.apath, e.addrs)).collect();
+                        let newe: Vec<_> = snap2.band_entries(newest).into_iter().map(|e| (e.apath, e.addrs)).collect();
+                        if old != newe {
+                            res.c14.push(Violation::new(
+                                format!("C14:resume-of-unchanged-tree-records-different-addresses:{site}"),
+                                format!("{at}: b{newest:04} does not record the addresses of b{last:04}"),
+                            ));
+                        }
+                    }
+                }
             }
         }
         _ => {
